@@ -321,7 +321,17 @@ class Fn:
                 return f"(sha1Hex {a})", "S"
         if isinstance(f, ast.Attribute) and f.attr == "translate":
             a, ka = self.expr(f.value, out, ind)
-            if ka == "S" and ast.unparse(e.args[0]).replace(" ", "") == "{97:48,98:49,99:50,100:51,101:52,102:53}":
+            tbl = None
+            t0 = e.args[0] if len(e.args) == 1 and not e.keywords else None
+            try:
+                if isinstance(t0, ast.Dict):
+                    tbl = ast.literal_eval(t0)
+                elif isinstance(t0, ast.Call) and ast.unparse(t0.func) == "str.maketrans" and len(t0.args) == 2 and not t0.keywords \
+                        and all(isinstance(x, ast.Constant) and isinstance(x.value, str) for x in t0.args):
+                    tbl = str.maketrans(t0.args[0].value, t0.args[1].value)      # the builtin, on two literals
+            except Exception:  # noqa: BLE001
+                tbl = None
+            if ka == "S" and tbl == {97: 48, 98: 49, 99: 50, 100: 51, 101: 52, 102: 53}:
                 return f"(decimalise {a})", "S"
             raise Unsupported("translate table " + ast.unparse(e.args[0]))
         if isinstance(f, ast.Attribute) and f.attr == "join" and isinstance(f.value, ast.Constant) and f.value.value == "":
@@ -330,12 +340,22 @@ class Fn:
             take = None
             if isinstance(inner, ast.Subscript) and isinstance(inner.slice, ast.Slice) and inner.slice.lower is None:
                 take = inner.slice.upper; inner = inner.value
-            if isinstance(inner, ast.ListComp) and len(inner.generators) == 1 and len(inner.generators[0].ifs) == 1:
+            if isinstance(inner, (ast.ListComp, ast.GeneratorExp) if take is None else ast.ListComp) and len(inner.generators) == 1 \
+                    and len(inner.generators[0].ifs) == 1 and not inner.generators[0].is_async:
                 g = inner.generators[0]
                 cond = g.ifs[0]
+                cmp0 = cond.comparators[0] if isinstance(cond, ast.Compare) and len(cond.ops) == 1 else None
+                # the loop variable runs over the characters of a str, so `d in "0123456789"` (a substring test on one
+                # character) and `d in ("0", …)` are the membership test `d in {"0", …}`
+                charset = None
+                if isinstance(cmp0, (ast.Set, ast.Tuple, ast.List)) and cmp0.elts and all(isinstance(c, ast.Constant) and isinstance(c.value, str) and len(c.value) == 1 for c in cmp0.elts):
+                    charset = sorted({c.value for c in cmp0.elts})
+                elif isinstance(cmp0, ast.Constant) and isinstance(cmp0.value, str) and cmp0.value:
+                    charset = sorted(set(cmp0.value))
                 if isinstance(inner.elt, ast.Name) and isinstance(g.target, ast.Name) and inner.elt.id == g.target.id \
-                        and isinstance(cond, ast.Compare) and isinstance(cond.ops[0], ast.In) and isinstance(cond.comparators[0], ast.Set):
-                    chars = sorted(c.value for c in cond.comparators[0].elts)
+                        and cmp0 is not None and isinstance(cond.ops[0], ast.In) and isinstance(cond.left, ast.Name) and cond.left.id == g.target.id \
+                        and charset is not None:
+                    chars = charset
                     src, ks = self.expr(g.iter, out, ind)
                     if ks != "S":
                         raise Unsupported("join source kind")
@@ -498,6 +518,10 @@ class Fn:
                 if isinstance(v_, ast.Attribute) and v_.attr == "__name__" and isinstance(v_.value, ast.Attribute) \
                         and v_.value.attr == "__class__" and isinstance(v_.value.value, ast.Name):
                     continue
+                if isinstance(v_, ast.Attribute) and v_.attr in ("__name__", "__qualname__") and isinstance(v_.value, ast.Call) \
+                        and ast.unparse(v_.value.func) == "type" and len(v_.value.args) == 1 and not v_.value.keywords \
+                        and isinstance(v_.value.args[0], ast.Name):
+                    continue                                  # `type(x).__name__`: the class name, read without the object's help
                 if isinstance(v_, ast.Call) and ast.unparse(v_.func) in ("str", "len") and len(v_.args) == 1 and \
                         (ast.unparse(v_.args[0]).startswith("len(") or self.types.get(ast.unparse(v_.args[0])) in ("N", "I")
                          or (ast.unparse(v_.func) == "len" and isinstance(v_.args[0], ast.Name))):
